@@ -154,6 +154,9 @@ class ExprMixin:
             return self.eval(node.body)
         if z3.is_false(z3.simplify(c)):
             return self.eval(node.orelse)
+        if not any(vs for vs, _ in self.st.qctx) and not self.st.qctx and not self.st.spec_mode:
+            # straight-line code: fork (keeps partial operations in each arm exact)
+            return self.eval(node.body) if self.branch(c, getattr(node, "lineno", 0)) else self.eval(node.orelse)
         a = self.guarded(c, node.body)
         b = self.guarded(z3.Not(c), node.orelse)
         return self.ite(c, a, b)
@@ -193,6 +196,17 @@ class ExprMixin:
     def e_BoolOp(self, node):
         vals = []
         is_and = isinstance(node.op, ast.And)
+        if not self.st.qctx and not self.st.spec_mode:
+            # straight-line code: fork on each operand (exact short-circuit semantics, partial operations stay exact)
+            v = None
+            for idx, e in enumerate(node.values):
+                v = self.eval(e)
+                if idx == len(node.values) - 1:
+                    return v
+                t = self.branch(as_bool(v), getattr(node, "lineno", 0))
+                if t != is_and:
+                    return v if not (isinstance(v, ZB) or self._boolish(v)) else ZB(t)
+            return v
         # evaluate left to right under the guard that previous operands did not short-circuit
         guards = []
         res = None
@@ -240,6 +254,13 @@ class ExprMixin:
             except KeyError:
                 raise Unsupported("binop on constants")
         if isinstance(op, ast.Add):
+            for x in (a, b):
+                if isinstance(x, ZV) and (x.tag or "").startswith("Opt[str") and (is_prim_str(a) or is_prim_str(b)):
+                    self.partial(x.term != L.NONE, "TypeError", node, "str+None")
+            if isinstance(a, ZV) and a.tag == "Opt[str]":
+                a = ZV(a.term, "str")
+            if isinstance(b, ZV) and b.tag == "Opt[str]":
+                b = ZV(b.term, "str")
             if is_prim_str(a) and is_prim_str(b):
                 return ZS(z3.Concat(as_str(a), as_str(b)))
             if is_prim_int(a) and is_prim_int(b):
@@ -378,6 +399,17 @@ class ExprMixin:
             return
         line = getattr(node, "lineno", 0)
         if st.qctx:
+            if getattr(self, "_defer", None) is not None and not st.spec_mode:
+                # inside a comprehension body: collected, decided where the generator is consumed
+                inner = defined
+                k = len(st.qctx) - 1
+                # wrap only the guards pushed since the comprehension's own quantifier (the innermost var-binding entry)
+                idx = max(q for q in range(len(st.qctx)) if st.qctx[q][0])
+                for vs, g in reversed(st.qctx[idx + 1:]):
+                    if g is not None:
+                        inner = z3.Implies(g, inner)
+                self._defer.append((inner, exc_cls))
+                return
             self.oblige("safe:%s@%d" % (what or exc_cls, line), defined, line)
             return
         if self.branch(defined, line):
@@ -579,7 +611,9 @@ class ExprMixin:
             return [a, b]
         return [None] * n
 
-    def comprehension(self, node, kind):
+    def comprehension(self, node, kind, defer_box=None):
+        """defer_box: list receiving (all-elements-defined condition, exception) pairs instead of raising here
+        (lazy generator consumed by all()/any(), which may short-circuit before reaching an undefined element)."""
         if len(node.generators) != 1:
             raise Unsupported("nested comprehension")
         g = node.generators[0]
@@ -607,6 +641,8 @@ class ExprMixin:
         guard = z3.And(0 <= j, j < n)
         saved = dict(st.env)
         st.qctx.append(((j,), guard))
+        outer_defer = getattr(self, "_defer", None)
+        self._defer = []
         try:
             self.bind_target(g.target, self.retag(L.nth(sv.term, j), self.elem_tag(sv)))
             conds = [as_bool(self.eval(c)) for c in g.ifs]
@@ -618,15 +654,25 @@ class ExprMixin:
                 if conds:
                     st.qctx.pop()
         finally:
+            deferred = [(z3.ForAll([j], z3.Implies(guard, dc)), exc) for dc, exc in self._defer]
+            self._defer = outer_defer
             st.qctx.pop()
             st.env = saved
         et = as_v(elt)
         out = L.fresh("comp")
         st.assume(out != L.NONE)
         tag = "Seq[%s]" % elt.tag if getattr(elt, "tag", None) else "seq"
+        if defer_box is not None and deferred:
+            defer_box.extend(deferred)
+        elif deferred:
+            for dcond, exc in deferred:
+                self.partial(dcond, exc, node, "comprehension-element")
         if not conds:
             st.assume(L.len_(out) == n)
-            st.assume(z3.ForAll([j], z3.Implies(guard, L.nth(out, j) == et), patterns=[L.nth(out, j), L.nth(sv.term, j)]))
+            try:
+                st.assume(z3.ForAll([j], z3.Implies(guard, L.nth(out, j) == et), patterns=[L.nth(out, j), L.nth(sv.term, j)]))
+            except z3.Z3Exception:
+                st.assume(z3.ForAll([j], z3.Implies(guard, L.nth(out, j) == et), patterns=[L.nth(out, j)]))
         else:
             P = z3.And(*conds)
             sk = L.fresh_fn("src_idx", L.I, L.I)      # index in src of the j-th kept element
@@ -643,7 +689,7 @@ class ExprMixin:
                                 patterns=[L.nth(sv.term, j)]))
             # order embedding
             j2 = L.fresh("q2", L.I)
-            st.assume(z3.ForAll([jj, j2], z3.Implies(z3.And(0 <= jj, jj < j2, j2 < m), sk(jj) < sk(j2)), patterns=[sk(jj), sk(j2)]))
+            st.assume(z3.ForAll([jj, j2], z3.Implies(z3.And(0 <= jj, jj < j2, j2 < m), sk(jj) < sk(j2)), patterns=[z3.MultiPattern(sk(jj), sk(j2))]))
         if kind == "set":
             st.assume(L.is_dictlike(out)) if False else None
         return ZV(out, tag)
